@@ -197,6 +197,14 @@ def i2(prog, ctx):
                 bound = argswap.bind_args(defs[0].value, einit, bound_method=True)
                 a_db = next((v for k, v in bound.items() if "db" in k), None)
                 a_chr = next((v for k, v in bound.items() if "chr" in k), None)
+                if a_db is None and len(bound) == 1:
+                    # the annotation scan was moved out of the constructor: ExcludingIdDistributor(<scan>(db, chr_id))
+                    inner = next(iter(bound.values()))
+                    hf = prog.module(IDP).functions.get((call_name(inner) or "").split(".")[-1]) if isinstance(inner, ast.Call) else None
+                    if hf is not None:
+                        b2 = argswap.bind_args(inner, hf)
+                        a_db = next((v for k, v in b2.items() if "db" in k), None)
+                        a_chr = next((v for k, v in b2.items() if "chr" in k), None)
                 params = [a.arg for a in fn.args.args]
                 # same database variable the loader/aggregator of this task use, and the task's chromosome parameter
                 loader = [x for x in walk_no_nested(fn) if isinstance(x, ast.Call) and call_name(x) == "ReadAssignmentLoader"]
@@ -249,6 +257,19 @@ def i2(prog, ctx):
                     if isinstance(st_, ast.AugAssign) or not (isinstance(st_.value, (ast.Name, ast.Attribute)) and src(st_.value) in alias):
                         cleared = False          # the number changed: any earlier test is void
                         bumped = True
+                        # the same search written with the library: next(v for v in itertools.count(<number> + k) if v not in forbidden)
+                        v_ = st_.value if isinstance(st_, ast.Assign) else None
+                        if isinstance(v_, ast.Call) and call_name(v_) == "next" and v_.args and isinstance(v_.args[0], ast.GeneratorExp) \
+                                and len(v_.args) == 1 and len(v_.args[0].generators) == 1:
+                            g_ = v_.args[0].generators[0]
+                            it_ = g_.iter
+                            starts_after = isinstance(it_, ast.Call) and (call_name(it_) or "").endswith("count") and len(it_.args) == 1 \
+                                and isinstance(it_.args[0], ast.BinOp) and isinstance(it_.args[0].op, ast.Add) and src(it_.args[0].left) in alias \
+                                and isinstance(it_.args[0].right, ast.Constant) and isinstance(it_.args[0].right.value, int) and it_.args[0].right.value >= 1
+                            filt = any(isinstance(c_, ast.Compare) and len(c_.ops) == 1 and isinstance(c_.ops[0], ast.NotIn) and src(c_.left) == src(g_.target)
+                                       and src(c_.comparators[0]) == "self.forbidden_ids" for c_ in g_.ifs)
+                            if starts_after and filt and src(v_.args[0].elt) == src(g_.target):
+                                cleared = True
             elif ev[0] == "cond":
                 for atom, pol in flow.conjuncts(ev[1], ev[2]):
                     if isinstance(atom, ast.Compare) and len(atom.ops) == 1 and src(atom.left) in alias \
@@ -267,6 +288,11 @@ def i2(prog, ctx):
     init = prog.func_inlined(IDP, "ExcludingIdDistributor.__init__")
     sw = {dotted(c.args[0]) for c in ast.walk(init) if isinstance(c, ast.Call) and isinstance(c.func, ast.Attribute)
           and c.func.attr == "startswith" and c.args}
+    # the scan of the annotation may live in a module-level function of id_policy whose result is handed to the constructor
+    for hname, hf in prog.module(IDP).functions.items():
+        if "." not in hname and any(isinstance(c, ast.Call) and (call_name(c) or "").endswith(".region") for c in ast.walk(hf)):
+            sw |= {dotted(c.args[0]) for c in ast.walk(hf) if isinstance(c, ast.Call) and isinstance(c.func, ast.Attribute)
+                   and c.func.attr == "startswith" and c.args}
     for const in ("TranscriptNaming.novel_gene_prefix", "TranscriptNaming.transcript_prefix"):
         if const not in sw:
             ctx.fail("I2", init, init._qualname, "startswith(...)",
@@ -465,7 +491,10 @@ def i5(prog, ctx):
         for a in ("forbidden_ids", "id_dict"):
             if (cname == "ExcludingIdDistributor") == (a == "forbidden_ids"):
                 defs = [s for s in walk_no_nested(init) if isinstance(s, ast.Assign) and dotted(s.targets[0]) == "self." + a]
-                if not defs or not isinstance(defs[0].value, (ast.Call, ast.Dict, ast.Set)) or src(defs[0].value) not in ("set()", "{}", "dict()"):
+                v0 = defs[0].value if defs else None
+                fresh_obj = isinstance(v0, (ast.Dict, ast.Set, ast.DictComp, ast.SetComp)) or \
+                    (isinstance(v0, ast.Call) and call_name(v0) in ("set", "dict", "defaultdict", "OrderedDict"))        # a new container, whatever it is filled from
+                if not fresh_obj:
                     ctx.fail("I5", init, init._qualname, "self.%s" % a, "%s.%s is not created fresh per instance (found %s)"
                              % (cname, a, [src(d) for d in defs]))
                 else:
